@@ -17,9 +17,6 @@ CLAIMED = {
             "DESIGN.md §7 C17"),
 }
 _PENDING = "not claimed yet: model/theorems/correspondence for this property are still being built (no technique switch; see DESIGN.md §7)"
-NOT_CLAIMED = {
-    "C19": ("Lean 4: general lemmas about the EnumMap lookup model (case-insensitivity, get/in/[] agreement) + decide +kernel over every table regenerated from the live classes (names resolve, codes resolve back, status text total); exhaustive correspondence over all members x casings x accessors",
-            "the quantifier is the finite set of tables the source declares now; it is re-extracted and re-decided by the kernel on every run, and the model's lookup function is compared exhaustively with MapMeta",
-            "DESIGN.md §7 C19"),("C%02d" % i): _PENDING for i in range(1, 20)}
+NOT_CLAIMED = {("C%02d" % i): _PENDING for i in range(1, 20)}
 for k in CLAIMED:
     NOT_CLAIMED.pop(k, None)
